@@ -76,7 +76,7 @@ theorem lemma_bool_str (s : List Char) (strict : Bool) :
       if Gen.trueStrings.contains (boolKey s) then .ok (.val true)
       else if Gen.falseStrings.contains (boolKey s) then .ok (.val false)
       else if strict then .error .valueError else .ok .dflt := by
-  simp [boolFromString, pyStr, boolKey]
+  simp [boolFromString, boolFromStringT, pyStr, boolKey]
 
 /-- True exactly on the true words, for every string, strict or not -/
 theorem bool_true_iff (s : List Char) (strict : Bool) :
@@ -111,8 +111,8 @@ theorem bool_nonstr_via_str (v : PyVal) (strict : Bool) (t : List Char)
   cases v with
   | bool b => exact absurd rfl (hv b)
   | str s => simp [pyStr] at ht; rw [ht]
-  | int n => simp only [pyStr] at ht; simp only [boolFromString, pyStr, ht]
-  | other x r => simp only [pyStr, Except.ok.injEq] at ht; subst ht; simp only [boolFromString, pyStr]
+  | int n => simp only [pyStr] at ht; simp only [boolFromString, boolFromStringT, pyStr, ht]
+  | other x r => simp only [pyStr, Except.ok.injEq] at ht; subst ht; simp only [boolFromString, boolFromStringT, pyStr]
 
 example : boolFromString (.int 1) true = .ok (.val true) := by decide
 example : boolFromString (.other ['N', 'o', 'n', 'e'] (.error .typeError)) true = .error .valueError := by
@@ -163,8 +163,9 @@ example : boolFromString (.str [' ', 'Y', 'e', 'S', Char.ofNat 0x3000]) true = .
 /-- int_from_bool_as_string is 1 exactly on the true words, 0 on every other string -/
 theorem int_from_bool_iff (s : List Char) :
     intFromBoolAsString (.str s) = .ok (if boolKey s ∈ Gen.trueStrings then 1 else 0) := by
-  unfold intFromBoolAsString
-  rw [lemma_bool_str]
+  unfold intFromBoolAsString intFromBoolAsStringT
+  rw [show boolFromStringT Gen.trueStrings Gen.falseStrings (.str s) false = boolFromString (.str s) false from rfl,
+    lemma_bool_str]
   by_cases h1 : boolKey s ∈ Gen.trueStrings
   · simp [h1]
   · by_cases h2 : boolKey s ∈ Gen.falseStrings <;> simp [h1, h2]
@@ -179,18 +180,63 @@ theorem boolstr_agrees_unpadded (s : List Char) (h : pyStrip s = s) :
   have hk : boolKey s = pyLower s := by unfold boolKey; rw [h]
   rw [lemma_bool_str, hk]
   by_cases h1 : pyLower s ∈ Gen.trueStrings
-  · simp [isValidBoolstr, pyStr, h1]
-  · by_cases h2 : pyLower s ∈ Gen.falseStrings <;> simp [isValidBoolstr, pyStr, h1, h2]
+  · simp [isValidBoolstr, isValidBoolstrT, pyStr, h1]
+  · by_cases h2 : pyLower s ∈ Gen.falseStrings <;> simp [isValidBoolstr, isValidBoolstrT, pyStr, h1, h2]
 
 /-- in general it looks up `str(value).lower()` without stripping -/
 theorem boolstr_iff (s : List Char) :
     isValidBoolstr (.str s) = .ok (decide (pyLower s ∈ Gen.trueStrings ++ Gen.falseStrings)) := by
-  simp [isValidBoolstr, pyStr]
+  simp [isValidBoolstr, isValidBoolstrT, pyStr]
 
 example : pyStrip ['O', 'N'] = ['O', 'N'] ∧ isValidBoolstr (.str ['O', 'N']) = .ok true := by decide
 /-- padded input is where the two differ (the reason for the hypothesis) -/
 example : isValidBoolstr (.str [' ', 'o', 'n']) = .ok false ∧
     boolFromString (.str [' ', 'o', 'n']) true = .ok (.val true) := by decide
+
+/-! ### whatever tables are in force at the time of the call
+
+`TRUE_STRINGS` / `FALSE_STRINGS` are public module attributes; a caller may rebind them.  The clauses
+hold for the tables the functions see when they are called. -/
+
+theorem lemma_boolT_str (ts fs : List (List Char)) (s : List Char) (strict : Bool) :
+    boolFromStringT ts fs (.str s) strict =
+      if ts.contains (boolKey s) then .ok (.val true)
+      else if fs.contains (boolKey s) then .ok (.val false)
+      else if strict then .error .valueError else .ok .dflt := by
+  simp [boolFromStringT, pyStr, boolKey]
+
+/-- True exactly on the words of the true table in force -/
+theorem bool_tables_true_iff (ts fs : List (List Char)) (s : List Char) (strict : Bool) :
+    boolFromStringT ts fs (.str s) strict = .ok (.val true) ↔ boolKey s ∈ ts := by
+  rw [lemma_boolT_str]
+  by_cases h1 : boolKey s ∈ ts
+  · simp [h1]
+  · by_cases h2 : boolKey s ∈ fs <;> cases strict <;> simp [h1, h2]
+
+/-- False exactly on the words of the false table in force that are not also in the true table -/
+theorem bool_tables_false_iff (ts fs : List (List Char)) (s : List Char) (strict : Bool) :
+    boolFromStringT ts fs (.str s) strict = .ok (.val false) ↔ boolKey s ∈ fs ∧ boolKey s ∉ ts := by
+  rw [lemma_boolT_str]
+  by_cases h1 : boolKey s ∈ ts
+  · simp [h1]
+  · by_cases h2 : boolKey s ∈ fs <;> cases strict <;> simp [h1, h2]
+
+/-- for ANY tables: on unpadded input is_valid_boolstr holds exactly when strict bool_from_string
+    returns a boolean, and fails exactly when it raises ValueError -/
+theorem boolstr_agrees_unpadded_any_tables (ts fs : List (List Char)) (s : List Char)
+    (h : pyStrip s = s) :
+    (isValidBoolstrT ts fs (.str s) = .ok true ↔ ∃ b, boolFromStringT ts fs (.str s) true = .ok (.val b)) ∧
+    (isValidBoolstrT ts fs (.str s) = .ok false ↔ boolFromStringT ts fs (.str s) true = .error .valueError) := by
+  have hk : boolKey s = pyLower s := by unfold boolKey; rw [h]
+  rw [lemma_boolT_str, hk]
+  by_cases h1 : pyLower s ∈ ts
+  · simp [isValidBoolstrT, pyStr, h1]
+  · by_cases h2 : pyLower s ∈ fs <;> simp [isValidBoolstrT, pyStr, h1, h2]
+
+example : boolFromStringT [['e', 'n', 'a', 'b', 'l', 'e', 'd']] [] (.str ['E', 'n', 'a', 'b', 'l', 'e', 'd']) true
+      = .ok (.val true) ∧
+    isValidBoolstrT [['e', 'n', 'a', 'b', 'l', 'e', 'd']] [] (.str ['E', 'n', 'a', 'b', 'l', 'e', 'd']) = .ok true ∧
+    isValidBoolstrT [['e', 'n', 'a', 'b', 'l', 'e', 'd']] [] (.str ['y', 'e', 's']) = .ok false := by decide +kernel
 
 /-! ### only ASCII casings of the words are recognised -/
 
